@@ -2,19 +2,19 @@
    variant body as a relation between the writer's and the reader's field lists, and the reader's view
    (migrate) of a writer value.  Definitions only; the theorems are in Props/C10.v. *)
 From MC Require Export DeriveDec DeriveDoc.
+From Coq Require Export Permutation.
 Local Open Scope N_scope.
 
 (* a field without its n/b choice *)
 Definition eraseb (f : field) : field := mkfield (f_idx f) false (f_tag f) (f_codec f) (f_synopt f) (f_skip f) (f_ty f).
 
-(* Fields with the same index are the same field; a field only the reader knows is optional (guarantee 3) and,
-   under array encoding, carries no tag (F10: a tagged field cannot read the null the writer puts into a gap).
+(* Fields with the same index are the same field; a field only the reader knows is optional (guarantee 3: its
+   nil() exists — also when it carries a tag and meets the null of an index gap, since the F10 repair).
    Fields only the writer knows are unconstrained (guarantee 2). *)
-Definition body_compat (e : encoding) (fsW fsR : list field) : Prop :=
+Definition body_compat (fsW fsR : list field) : Prop :=
   (forall fW fR, In fW fsW -> In fR fsR -> f_skip fW = false -> f_skip fR = false -> f_idx fW = f_idx fR -> eraseb fW = eraseb fR) /\
   (forall fR, In fR fsR -> f_skip fR = false ->
-     (forall fW, In fW fsW -> f_skip fW = false -> f_idx fW <> f_idx fR) ->
-     nil_of fR <> None /\ (e = AsArray -> f_tag fR = None)).
+     (forall fW, In fW fsW -> f_skip fW = false -> f_idx fW <> f_idx fR) -> nil_of fR <> None).
 
 Section Migrate.
 Variable recV : nat -> value -> value.       (* what the nested definitions decode to (default_skipped of the same schema) *)
@@ -36,3 +36,59 @@ Definition migrate_fields (fsW : list field) (vsW : list value) (fsR : list fiel
   map (fun f => if f_skip f then match default_fty (f_ty f) with Some dv => dv | None => VUnit end
                 else migrate_field fsW vsW f) fsR.
 End Migrate.
+
+(* ---- C08 invariance: a schema and a reordering of it (declaration order of fields and variants, n/b, named/tuple
+   shape changed in any of its definitions simultaneously), with the values reordered accordingly ---- *)
+Section Reorder.
+Variable R : nat -> value -> value -> Prop.          (* the values of the nested definitions correspond *)
+
+Fixpoint fty_rel (f : fty) (v v' : value) {struct f} : Prop :=
+  match f with
+  | FTy _ => v = v'
+  | FRef d => R d v v'
+  | FOpt g => match v, v' with VNone, VNone => True | VSome a, VSome b => fty_rel g a b | _, _ => False end
+  | FSeq g => match v, v' with VList l, VList l' => Forall2 (fty_rel g) l l' | _, _ => False end
+  end.
+
+(* the same field (n/b aside) with corresponding values *)
+Definition pair_rel (x x' : field * value) : Prop :=
+  eraseb (fst x) = eraseb (fst x') /\
+  match f_codec (fst x) with
+  | CoDefault => fty_rel (f_ty (fst x)) (snd x) (snd x')
+  | CoBytes => snd x = snd x' /\ exists t, f_ty (fst x) = FTy t        (* a byte-string leaf, as field_ok demands *)
+  | CoCustom _ => snd x = snd x'
+  end.
+
+(* the declared, non-skipped (field, value) pairs of the one are a permutation of those of the other *)
+Definition fields_reordered (fs fs' : list field) (vs vs' : list value) : Prop :=
+  length vs = length fs /\ length vs' = length fs' /\
+  exists P, Permutation (decl fs vs) P /\ Forall2 pair_rel P (decl fs' vs').
+
+Inductive def_reordered : def -> def -> value -> value -> Prop :=
+| ReStruct e tag sh sh' fs fs' vs vs' :
+    is_unit sh = is_unit sh' -> fields_reordered fs fs' vs vs' ->
+    def_reordered (DStruct e tag false sh fs) (DStruct e tag false sh' fs') (VList vs) (VList vs')
+| ReTransparent e sh sh' f f' v v' :
+    pair_rel (f, v) (f', v') ->
+    def_reordered (DStruct e None true sh [f]) (DStruct e None true sh' [f']) (VList [v]) (VList [v'])
+| ReEnum e tag io vars vars' i vs vs' :
+    (forall j, match find_variant vars j, find_variant vars' j with
+               | Some va, Some va' => v_enc va = v_enc va' /\ v_tag va = v_tag va' /\ is_unit (v_shape va) = is_unit (v_shape va')
+                                     /\ (j = i -> fields_reordered (v_fields va) (v_fields va') vs vs')
+               | None, None => True
+               | _, _ => False
+               end) ->
+    def_reordered (DEnum e tag io vars) (DEnum e tag io vars') (VVar i (VList vs)) (VVar i (VList vs')).
+End Reorder.
+
+(* v' is the value v of definition d of Sc, seen through the reordered schema Sc' *)
+Fixpoint reordered_f (k : nat) (Sc Sc' : schema) (d : nat) (v v' : value) : Prop :=
+  match k with
+  | O => False
+  | S k' =>
+      match nth_error Sc d, nth_error Sc' d with
+      | Some df, Some df' => def_reordered (fun d' a b => Nat.ltb d' d = true /\ reordered_f k' Sc Sc' d' a b) df df' v v'
+      | _, _ => False
+      end
+  end.
+Definition reordered (Sc Sc' : schema) (d : nat) (v v' : value) : Prop := reordered_f (S d) Sc Sc' d v v'.
